@@ -13,6 +13,7 @@ EXPLANATION = (
     "outcome; the removal/find helpers act only under their class test; every scan over the padded/truncated "
     "author+tag key compares the fetched event's kind and whole d value before returning or removing it; the "
     "address-marker key identifies the address exactly. The at-most-one invariant over all histories is not decided.")
+EXPLANATION += " Also decided: the three kind-class predicates are evaluated, from their branch conditions, for every one of the 65536 kind numbers and must accept exactly NIP-01's sets."
 ASSUMPTIONS = []
 
 
